@@ -62,6 +62,7 @@ inductive Op
   | allowed               -- observe sm.allowed_events
   | events                -- observe sm.events
   | swap (k : Nat)        -- the callback lists change (a listener was attached): use machine variant k
+  | write (v : Val)       -- somebody assigns the model field directly (`setattr(model, state_field, v)`)
 deriving Repr
 
 structure Scn where
@@ -136,6 +137,7 @@ def addLine (s : Scn) (toks : List String) : Scn :=
   | "op" :: "allowed" :: _ => { s with ops := s.ops.push .allowed }
   | "op" :: "events" :: _ => { s with ops := s.ops.push .events }
   | "op" :: "swap" :: k :: _ => { s with ops := s.ops.push (.swap (natOf k)) }
+  | "op" :: "write" :: v :: _ => { s with ops := s.ops.push (.write (natOf v)) }
   | "op" :: "construct" :: _ => { s with ops := s.ops.push .construct }
   | "op" :: "reconstruct" :: _ => { s with ops := s.ops.push .reconstruct }
   | "op" :: "activate" :: _ => { s with ops := s.ops.push .activate }
@@ -204,6 +206,11 @@ def runEngine (s0 : Scn) : List String := Id.run do
         continue
       | .events =>
         out := out ++ ["V " ++ toString i ++ " " ++ ",".intercalate ((sortNat (allEvents m)).map toString)]
+        i := i + 1
+        continue
+      | .write v =>
+        cfg := { cfg with cur := some v }
+        out := out ++ [s!"T 0 {s.reprV v}", s!"R {i} ok None cur={optS s.reprV cfg.cur} tid=-"]
         i := i + 1
         continue
       | .swap k =>
